@@ -444,6 +444,16 @@ def run_grid(ctx):
                             cs.append({"dtype": dt, "act": act, "wq": wq, "rows": r, "brank": 1 if entry != "linear" else 1 + (r % 2), "inf": k, "outf": n,
                                        "bias": (r + k) % 2 == 0, "mode": "exact", "entry": entry, "layout": "expanded" if (entry == "linear" and (r + k + n) % 5 == 0) else "contig", "ascale": "absmax", "group": 0,
                                        "per_tensor_w": ptw, "seed": ctx.seed * 1000 + r + 7 * k + 13 * n})
+    # large coherent sums: one-sided float activations of magnitude 20 against near-constant weight rows -- the unscaled sum
+    # of activation x code products leaves the range of float16 although the result does not
+    for dt in ("fp16", "bf16", "fp32"):
+        for wq in WQ:
+            if wq in ("qint4", "qint2"):
+                continue
+            for (r, k, n) in [(4, 256, 8), (2, 160, 3), (1, 64, 5)]:
+                for ptw in (False, True):
+                    cs.append({"dtype": dt, "act": "float", "wq": wq, "rows": r, "brank": 1, "inf": k, "outf": n, "bias": bool(r % 2), "mode": "real", "entry": "linear", "layout": "contig",
+                               "ascale": "absmax", "group": 0, "per_tensor_w": ptw, "sign": "one-sided", "seed": 4 * (ctx.seed * 100 + k + n) + 3})
     from vlib.core import enumerate_cases
 
     enumerate_cases(ctx, cs[ctx.shard :: ctx.nshards], exec_case,
